@@ -324,6 +324,22 @@ def run(ctx: Context) -> None:
         ex = fcfg.exits()
         ok = not [n for k, n in ex if k == 'fall'] and any(k == 'raise' and 'ValueError' in norm_text(n) for k, n in ex)
         ctx.check('R08.6', ok, "a variable with no usable fill value raises ValueError (and is then left unmasked)", ff, ff.node)
+        # what is float in memory may be packed integers on disk: the masked variable is written with its source's encoding
+        packed = None
+        for n in walk_no_nested(ff.node):
+            if isinstance(n, ast.Raise) and 'ValueError' in norm_text(n):
+                g = guards(ff, n)
+                texts = {t for t, pol in g if pol}
+                neg = {t for t, pol in g if not pol}
+                kind_ok = any(('.kind in' in t and all(k in t.split('.kind in')[1] for k in 'iu')) or 'numpy.integer' in t for t in texts)
+                no_fill = any(t == f"'_FillValue' in {dp}.encoding" for t in neg) and any(t == f"'missing_value' in {dp}.encoding" for t in neg)
+                if kind_ok and no_fill:
+                    packed = n
+        third = sorted(rets, key=lambda r: r.lineno)[-1] if rets else None
+        ctx.check('R08.6', packed is not None and third is not None and packed.lineno < third.lineno,
+                  "a variable packed into an integer type on disk without _FillValue or missing_value has no usable fill value, although it is a float variable in memory: "
+                  "the nan would be written through the integer encoding and come back as a made-up number", ff, packed or ff.node,
+                  construct=f"refusal of packed variables without a fill value: {'line ' + str(packed.lineno) if packed is not None else 'absent'}")
         pr = [c for c in calls_in(ff) if (callee(ctx, ff, c) or '').endswith('maybe_promote')]
         ok = len(pr) == 1 and norm_text(pr[0].args[0]) == 'data_array.dtype'
         ctx.check('R08.6', ok, "the dtype's own missing value comes from promoting the variable's dtype", ff, pr[0] if pr else ff.node)
@@ -343,6 +359,8 @@ from ..variants import V  # noqa: E402
 _M = 'src/emsarray/masking.py'
 _U = 'src/emsarray/conventions/ugrid.py'
 VARIANTS = [
+    V('C08', 'packed-without-fill-gets-nan', _M, "        and numpy.dtype(encoded_dtype).kind in 'iub'\n        and '_FillValue' not in data_array.encoding\n", "        and numpy.dtype(encoded_dtype).kind in 'iub'\n        and '_FillValue' in data_array.encoding\n", 'R08.6'),
+    V('C08', 'packed-check-removed', _M, "        raise ValueError(\"No appropriate fill value found\")\n\n    promoted_dtype", "        pass\n\n    promoted_dtype", 'R08.6'),
     V('C08', 'mask-applied-by-position', 'src/emsarray/masking.py', "condition = mask_data_array.reset_coords(drop=True)", "condition = mask_data_array.values", 'R08.2'),
     V('C08', 'benign-mask-as-variable', 'src/emsarray/masking.py', "condition = mask_data_array.reset_coords(drop=True)", "condition = mask_data_array.variable", None),
     V('C08', 'mask-coordinates-attached', 'src/emsarray/masking.py', "            condition = mask_data_array.reset_coords(drop=True)\n", "            condition = mask_data_array\n", 'R08.2'),
